@@ -38,9 +38,6 @@ def monitor(ctx, st):
     if A.error:
         ctx.violate({"kind": "manifest-unreadable"}, A.error)
         return
-    if A.root_or_ancestor_matches:
-        ctx.probe("root_matches_pattern_na")
-        return
     desc = f"{A.argv} (exit {A.exit})"
     if A.mode == "sf":
         # n/a when a non-default history pattern matches something beneath a named folder
